@@ -1,3 +1,3 @@
 From Coq Require Import ExtrOcamlBasic.
-From OBB Require Import Model.Sercomm.
-Extraction "model.ml" w_c06_script.
+From OBB Require Import Model.Sercomm Model.SercommDrv.
+Extraction "model.ml" w_c06_script w_c06_drv.
